@@ -102,6 +102,26 @@ def transform(rng, mode="mixed"):
     dy = rng.choice([0, rng.randint(-300, 300), rng.randint(-300, 300) + 0.5])
     if r < 0.25:
         return [1, 0, 0, 1, dx, dy]
+    if mode == "tt":
+        # TrueType component matrices: entries representable as F2Dot14 (|v| < 2) except for a
+        # small overflow stratum
+        if r < 0.6:
+            sc = [0.5, 1.5, 0.25, 0.75, 1.25, -1, -0.5, 1, 1]
+            xx, yy = rng.choice(sc), rng.choice(sc)
+            xy = rng.choice([0, 0, 0, 0.5, -0.25])
+            yx = rng.choice([0, 0, 0, 0.25, -0.5])
+            if xx * yy - xy * yx == 0:
+                xy = yx = 0
+            return [xx, xy, yx, yy, dx, dy]
+        if r < 0.7:
+            return [-1, 0, 0, 1, dx, dy]
+        if r < 0.78:
+            return [0, 1, -1, 0, dx, dy]
+        if r < 0.97:
+            a = math.radians(rng.choice([10, 30, 45, 123.4, -77]))
+            s_ = rng.choice([1, 0.8, 1.3])
+            return [s_ * math.cos(a), s_ * math.sin(a), -s_ * math.sin(a), s_ * math.cos(a), dx, dy]
+        return [rng.choice([2, 3, -2.5]), 0, 0, rng.choice([1, 2]), dx, dy]
     if r < 0.55 or mode == "dyadic":
         xx, yy = rng.choice(DYADIC_SCALES), rng.choice(DYADIC_SCALES)
         xy = rng.choice([0, 0, 0, 0.5, -0.25])
